@@ -125,6 +125,26 @@ def run(tier):
         if s.get("sample"):
             rep.sample({"kind": "recorded trace events of " + proto, "events": s["sample"][:3]})
 
+    # ---- 4. foreign-session messages injected at random points never change the outcome (multi- and two-party handlers)
+    vlib.build(["hadv"])
+    fscen = []
+    for k in range(3 if quick else 12):
+        for proto, n, t in (("frost-keygen", 3, 1), ("doerner-keygen", 2, 1), ("doerner-sign", 2, 1), ("toy:b,bm,b", 3, 1)):
+            fscen.append({"id": len(fscen), "kind": "foreign", "proto": proto, "n": n, "t": t, "byz": "", "diff": "sid", "sched": sd * 89 + k * 11 + len(fscen)})
+    outcomes, problems, fstats = hc.run_adversarial(wd, fscen, "frn", sd, shards=8)
+    states += fstats["distinct"]; trans += fstats["generated"]
+    traces_ok += fstats["traces"]
+    rep.add_counts(evaluations=len(fscen))
+    for i, o in outcomes.items():
+        for v in o.get("viol") or []:
+            s = fscen[i]
+            rep.violation({"proto": s["proto"], "what": v["what"]}, "%s with foreign-session messages injected: %s" % (s["proto"], v["detail"]), {"scenario": s, "violation": v})
+    for pr in problems:
+        g = pr["group"]
+        rep.violation({"proto": g["proto"], "what": "trace-" + (pr["violated"] or "rejected")},
+                      "%s: a recorded real execution with foreign-session messages is not a behaviour of the handler specification: %s at trace line %s" % (g["proto"], pr["violated"] or "no action matches", pr["line"]),
+                      {"event": pr["event"], "scenario": pr["scenario"], "trace_file": g["file"]})
+
     rep.cov.update({"states": states, "transitions": trans, "traces_validated_against_impl": traces_ok,
                     "exhaustive": True,
                     "rule": "orders: every complete causal delivery history TLC enumerates for one handler (incl. duplicate / stale / foreign insertions) is replayed on the real handler; traces: random global schedules of real sessions validated line by line against Handler.tla"})
